@@ -136,6 +136,19 @@ pub fn run(args: &[String]) -> i32 {
                     Some(v) if Some(&v) == expect.as_ref() => {}
                     _ => hit(format!("C06|Field{}|value-changed|mt|prec={}|frac={}", tag, prec, fr)),
                 }
+                // ... and is itself accepted again, with the same value
+                let body_content = body.clone();
+                match guarded(|| parse_by_tag(tag, &body_content)) {
+                    Ok(Some(Ok(o2))) => {
+                        let mut n2 = Vec::new();
+                        numbers_in(&o2.json, &mut n2);
+                        if !n2.iter().any(|x| canon_decimal(x).as_ref() == expect.as_ref()) {
+                            hit(format!("C06|Field{}|value-changed|reparse|prec={}|frac={}", tag, prec, fr));
+                        }
+                    }
+                    Ok(Some(Err(_))) => hit(format!("C06|Field{}|serialised-amount-refused|sp={}|prec={}|{}", tag, sp, prec, digits_class)),
+                    _ => {}
+                }
                 // JSON: a finite, non-negative number with the same value
                 let mut nums = Vec::new();
                 numbers_in(&o.json, &mut nums);
